@@ -53,7 +53,7 @@ def check_panic_sites(run, ctx):
                     if cn in PANICKY or cn.startswith(PANIC_FNS):
                         site = (cn, t)
                     elif cn in ('core::ops::arith::Sub::sub', 'core::ops::arith::SubAssign::sub_assign', 'core::ops::arith::Div::div', 'core::ops::arith::Rem::rem',
-                                'core::ops::arith::Mul::mul'):
+                                'core::ops::arith::Mul::mul', 'core::ops::arith::Add::add', 'core::ops::arith::AddAssign::add_assign'):
                         r = t['callee'].get('resolved') or ''
                         st = t['callee'].get('self_ty') or ''
                         if st in ('core::time::Duration', 'std::time::Instant', 'std::time::SystemTime') and not (cn.endswith('Sub::sub') and st == 'std::time::Instant' and 'Instant>' in r):
